@@ -6,6 +6,8 @@
 // One case per line, fields separated by '|':
 //   <id>|E:<entry>|S:<hex stylesheet bytes>|D:<hex source bytes>|P:name=<hex expr>;...|X:<hex XPath bytes (UTF-8, lenient)>[|O:full]
 //   O:full  print the whole output in hex instead of its first 96 bytes (serializer buffer-boundary sweep)
+//   O:msg   append one more field: the error message (getLastError / XalanGetLastError) in hex, first 600 bytes
+//           (erroneous-input part, props/C03_errors.py); options combine as O:full,msg
 // entry:  T  XalanTransformer::transform(stream, stream, ostream)
 //         C  compileStylesheet + parseSource + transform(parsed, compiled) + destroy both
 //         A  C API: XalanCompileStylesheetFromStream + XalanParseSourceFromStream + XalanTransformToDataPrebuilt
@@ -249,7 +251,8 @@ int main(int argc, char** argv)
             } else post = postTransformer(t);
         } else if (rc != 0 || !esc.empty()) post = postTransformer(t);
         if (!esc.empty()) std::cout << id << "|exc|" << esc << "|" << post << "||0\n";
-        else std::cout << id << "|" << rc << "|" << (msg.empty() ? 0 : 1) << "|" << post << "|" << hex(out, opts.find("full") != std::string::npos ? std::string::npos : 96) << "|" << out.size() << "\n";
+        else std::cout << id << "|" << rc << "|" << (msg.empty() ? 0 : 1) << "|" << post << "|" << hex(out, opts.find("full") != std::string::npos ? std::string::npos : 96) << "|" << out.size()
+                       << (opts.find("msg") != std::string::npos ? "|" + hex(msg, 600) : std::string()) << "\n";
         std::cout.flush();
     }
     delete xs;
